@@ -80,6 +80,9 @@ inductive S
   | strFloat (f32 : Bool)
   /-- `type: string, format: byte | binary`: typed `Vec<u8>` without a base64 adapter (finding F02-10) -/
   | strBytes
+  /-- `enum: [v]` / `const: v` with ONE string value: the member is typed `String` and carries the value as its default
+  (fields.rs: a single-value enum is a default, not a type) -/
+  | single (v : Str)
 /-- properties in the generator's iteration order (BTreeMap order of the names) -/
 inductive Props
   | nil
@@ -98,6 +101,10 @@ def Props.names : Props → List Str
 def Props.anyDefault : Props → Bool
   | .nil => false
   | .cons _ _ _ d r => d.isSome || r.anyDefault
+
+def S.isSingle : S → Bool
+  | .single _ => true
+  | _ => false
 
 def S.isNullable : S → Bool
   | .nullable _ => true
@@ -218,6 +225,7 @@ def typeOf (fname : Str → Str) (vname : J → Str) : S → Ty
   | .strNum f => .int f.range.1 f.range.2
   | .strFloat f32 => .float f32
   | .strBytes => .vec (.int 0 255)
+  | .single _ => .string
   | .obj ps addl =>
     let fs := fieldsOf fname vname ps []
     .struct fs (flatOf fname vname addl) (match addl with | .closed => true | _ => false) ps.anyDefault fs.anyOption
@@ -228,7 +236,8 @@ def fieldsOf (fname : Str → Str) (vname : J → Str) : Props → List Str → 
   | .cons name s req dflt rest, seen =>
     let rust := fname name
     let t0 := typeOf fname vname s
-    let t := if !req || dflt.isSome then t0.withOption else t0
+    -- an explicit `default` makes the member optional; the value of a single-value enum is a default that does not
+    let t := if !req || (dflt.isSome && !s.isSingle) then t0.withOption else t0
     let n := count rust seen + 1
     let ident := if n > 1 then rust ++ '_' :: showNat n else rust
     let wire := if rust == name then unraw ident else name
